@@ -202,6 +202,9 @@ func ParseVersion(versionString string) (version Version, err error) {
 	if !found {
 		return version, fmt.Errorf("Malformed version string %s, delimiter not found", versionString)
 	}
+	if sourceBase64 == "" {
+		return version, fmt.Errorf("Malformed version string %s, source ID not found", versionString)
+	}
 	version.SourceID = sourceBase64
 	// remove any leading whitespace, this should be addressed in CBG-3662
 	if len(timestampString) > 0 && timestampString[0] == ' ' {
